@@ -1,30 +1,44 @@
 // xlate_gconf — translator ties (T) for C03, C16 and C10: reads gconfig/builder.go, config.go and
 // yaml_templates.go of the current tree with go/parser and regenerates Gallina definitions
 //
-//	-set resolve    keySet, parsesAll, switchDimension, reduceAny, extract   (GT.GConfGenPrims)
-//	-set templates  MatchAndResolve, parseTemplatedElements                   (GT.TmplGenPrims)
-//	-set cache      getFromCache                                              (GT.GConfCacheGenPrims)
+//	-set resolve    reduceAny, extract, lookupEnv, FromBytes                    (GT.GConfGenPrims)
+//	-set templates  MatchAndResolve, parseTemplatedElements, FromBytes          (GT.TmplGenPrims)
+//	-set cache      extractAndConvert, getFromCache, Get, MustGet, GetOrDefault (GT.GConfCacheGenPrims)
 //
-// A recursive function is rendered as a functional of its own recursive call (first parameter
-// `rec`), so its tie is the recursion equation read off the source.  Functions are located by
-// their place in the call graph below FromBytes / Get (rename.go: resolveRoles), locals are
-// renamed to x1, x2, ... by declaration with Go's block scoping (rename.go: renameLocals), the
-// `default` key constant, the compiled-pattern variable and the template list are found by their
-// initialisers: renaming any of these leaves the output unchanged.
+// together with every unexported function or method these call (helpers: gen_h_<name>, listed in
+// the hint database gen_helpers so that the tie proofs unfold them whatever they are called and
+// however the code is split into helpers).
 //
-// Supported subset: `x := e`, `x = e`, `a, b[, c] := f(..)`, `a, b := m[k]`, `a, b = x.(map[string]any)`,
-// `m[k], err = f(..)`, `var x T`, `m[k] = e` / `s[i] = e` (also through the variable bound by a type
-// switch, which aliases the switched value), method statement `set.Add(k)`,
-// `if [init;] c {..} [else {..} | else if ..]`, `for k[, v] := range map|slice|set|templates` with
-// `continue` and early `return`, `switch v := x.(type)` / `any(x).(type)` over string /
-// map[string]any / []any, `return ...` (incl. `return f(..)` and `return v.(T), e`), named results,
-// `len`, `make(set.Set[string], n)`, `==`, `!=`, `<`, `-`, `!`, `&&`, `||`, `nil`, integer and string
-// literals, true/false, slice indexing `s[i]`, calls of the translated functions, dimension methods
-// get / defaultVal.ParseGeneric, error factories (Err*.Msg(..), gerror.*: some non-nil error),
-// FindStringSubmatch / os.LookupEnv / strings.Trim, `cacheKey{key: .., typ: reflect.TypeFor[T]()}`,
-// `cfg.cached.Compute(k, func..)` with a function literal assigning a captured variable,
-// `extractAndConvert[T](cfg.data, key)`, `any(e)` and `any(e).(T)`.  Anything else is rendered as
-// UNSUPPORTED_<what>, which makes the generated file fail to compile and breaks the tie.
+// A function that can reach itself (reduceAny, parseTemplatedElements) is rendered as a functional
+// of its own recursive call (parameter rec_<role>; helpers and callers that reach it take the same
+// parameter), so its tie is the recursion equation read off the source.  Functions are located by
+// their place in the call graph below FromBytes / Get / initFlag (analysis.go: resolveRoles), locals
+// are renamed to x1, x2, ... by declaration with Go's block scoping (rename.go), package constants are
+// replaced by their values, the compiled-pattern variable and the template list are found by their
+// initialisers.
+//
+// Statements are rendered in continuation style.  Loops use GT.GConfLoop.loop: the body maps the
+// loop-carried variables (those assigned in the body that are read before being written in an
+// iteration or are live after the loop) and the item to Next state | Exit x; `return` inside loops,
+// `continue`/`break` with or without label are Exit/Next terms of the right nesting depth.
+// `for i := a; i < n; i++` (i, n not assigned in the body) iterates over seq a (n - a).  A helper
+// that updates a map/slice argument in place returns the updated value first; the caller rebinds
+// its variable (and what that variable aliases through a type switch).
+//
+// Supported subset: `x := e`, `x = e`, `var x T [= e]`, multi-value `:=`/`=` from calls, `v, ok := m[k]`,
+// `m, ok = x.(map[string]any)`, `m[k] = e` / `s[i] = e` / `m[k], err = f(..)` (also through the
+// variable bound by a type switch, which aliases the switched value), `i++`, `set.Add(k)`,
+// `if [init;] c {..} [else ..]`, tagless and tagged `switch` (no fallthrough, no break), `switch v :=
+// x.(type)` / `any(x).(type)` over string / map[string]any / []any / default, `for range` over maps,
+// slices, sets, string arrays, the dimensions, the templates; index `for`; labels; `return` (incl.
+// `return f(..)` and `return v.(T), e`), named results, `len`, `make`, comparisons, `+`, `-`, `!`, `&&`,
+// `||`, `nil`, literals, `[...]string{..}`, `s[i]`, calls of package functions and methods,
+// dimension methods get / defaultVal.ParseGeneric, error factories (Err*.Msg(..), gerror.*: some
+// non-nil error), FindStringSubmatch / os.LookupEnv / strings.Trim / ToUpper / ToLower / Split(_, "."),
+// yaml.Marshal / yaml.Unmarshal(b, &x) (oracles), `cacheKey{..}`, `&Config{..}`, `cfg.cached.Compute(k, fn)`
+// with a function literal or a closure bound to a local name, `panic(err)`, `any(e)`, `any(e).(T)`, `*new(T)`.
+// Anything else is rendered as UNSUPPORTED_<what>, which makes the generated file fail to compile
+// and breaks the tie.
 //
 //	xlate_gconf -src <repo>/gconfig [-set resolve|templates|cache] -out <file>.v
 package main
@@ -37,1036 +51,146 @@ import (
 	"go/token"
 	"os"
 	"path/filepath"
-	"sort"
-	"strconv"
 	"strings"
 )
 
-type kind int
-
-const (
-	kUnknown kind = iota
-	kAny
-	kMap
-	kSlice
-	kStrSlice
-	kKeys
-	kDimPtr
-	kDims
-	kErr
-	kBool
-	kString
-	kEnum
-	kInt
-	kT        // a value of the type parameter T (cache set)
-	kDval     // a Go `any` held by the memo: dynamic type + payload (cache set)
-	kCfg      // *Config
-	kCacheKey // cacheKey
-	kTemplate // an element of the package's template list (templates set)
-	kTemplates
-)
-
-// what a value of the type parameter is rendered as (kT = abstract `val`; the templates set
-// instantiates it with decoded yaml values, i.e. trees)
-var typeParamKind = kT
-
-// the package variable holding the templates ([]templateVariable{&envVarTmpl{}}) and its length
-var (
-	templatesVar = ""
-	templatesLen = 0
-)
-
-// in the cache set `any` is a memo value (kDval), elsewhere a decoded yaml value (kAny)
-var anyKind = kAny
-
-// name of the type parameter of the generic function being translated ("" if none)
-var typeParam string
-
-func (k kind) coq() string {
-	switch k {
-	case kAny:
-		return "tree"
-	case kMap:
-		return "gomap"
-	case kSlice:
-		return "list tree"
-	case kStrSlice, kKeys:
-		return "list string"
-	case kDimPtr:
-		return "dimptr"
-	case kDims:
-		return "list dimptr"
-	case kErr, kBool:
-		return "bool"
-	case kString:
-		return "string"
-	case kEnum, kInt:
-		return "nat"
-	case kT:
-		return "val"
-	case kDval:
-		return "dval ty"
-	case kCacheKey:
-		return "(string * ty)"
-	}
-	return "UNSUPPORTED_type"
+var sets = map[string][]string{
+	"resolve":   {"reduceAny", "extract", "lookupEnv", "FromBytes"},
+	"templates": {"MatchAndResolve", "parseTemplatedElements", "FromBytes"},
+	"cache":     {"extractAndConvert", "getFromCache", "Get", "MustGet", "GetOrDefault"},
 }
 
-func (k kind) zero() string {
-	switch k {
-	case kAny:
-		return "Null"
-	case kMap, kSlice, kStrSlice, kKeys, kDims:
-		return "[]"
-	case kDimPtr:
-		return "None"
-	case kErr, kBool:
-		return "false"
-	case kString:
-		return "EmptyString"
-	case kEnum, kInt:
-		return "0"
-	case kT:
-		return "zeroT"
-	case kDval:
-		return "(nil_dval ty)"
+func resTypes(ks []kind) string {
+	if len(ks) == 0 {
+		return "unit"
 	}
-	return "UNSUPPORTED_zero"
+	parts := make([]string, len(ks))
+	for i, k := range ks {
+		parts[i] = k.coq()
+	}
+	return strings.Join(parts, " * ")
 }
 
-func typeKind(t ast.Expr) kind {
-	switch x := t.(type) {
-	case *ast.Ident:
-		if typeParam != "" && x.Name == typeParam {
-			return typeParamKind
+func (a *analysis) translate(key string) (string, []string) {
+	fi := a.infos[key]
+	fd := fi.decl
+	f := &fn{a: a, info: fi, env: map[string]kind{}, aliases: map[string]alias{}, closures: map[string]*ast.FuncLit{}, results: fi.results}
+	head := "Definition " + fi.gen
+	for _, r := range fi.recs {
+		ri := a.info(a.pkg.roleGo[r])
+		var pt []string
+		for _, p := range ri.args {
+			pt = append(pt, p.kind.coq())
 		}
-		switch x.Name {
-		case "any":
-			return anyKind
-		case "error":
-			return kErr
-		case "bool":
-			return kBool
-		case "string":
-			return kString
-		case "int":
-			return kInt
+		head += " (rec_" + r + " : " + strings.Join(pt, " -> ") + " -> " + resTypes(ri.results) + ")"
+	}
+	if fi.usesEnv {
+		head += " (env : list (string * string))"
+	}
+	if fi.stateful {
+		head += " (cache : gcache ty)"
+	}
+	for _, p := range fi.args {
+		f.env[p.name] = p.kind
+		if p.kind == kCfg && fi.stateful { // the Config is represented by its memo
+			continue
 		}
-	case *ast.InterfaceType:
-		return kAny
-	case *ast.MapType:
-		if typeKind(x.Key) == kString && typeKind(x.Value) == kAny {
-			return kMap
-		}
-	case *ast.ArrayType:
-		if x.Len == nil {
-			switch typeKind(x.Elt) {
-			case kAny:
-				return kSlice
-			case kString:
-				return kStrSlice
-			case kDimPtr:
-				return kDims
+		head += " (v_" + p.name + " : " + p.kind.coq() + ")"
+	}
+	var rk []kind
+	for _, i := range fi.mutated {
+		f.mutatedArgs = append(f.mutatedArgs, fi.args[i].name)
+		rk = append(rk, fi.args[i].kind)
+	}
+	rk = append(rk, fi.results...)
+	// named results are variables initialised to their zero values
+	pre := ""
+	if fd.Type.Results != nil {
+		i := 0
+		for _, r := range fd.Type.Results.List {
+			for _, n := range r.Names {
+				f.env[n.Name] = fi.results[i]
+				pre += "let v_" + n.Name + " := " + fi.results[i].zero() + " in\n  "
+				i++
+			}
+			if len(r.Names) == 0 {
+				i++
 			}
 		}
-	case *ast.StarExpr:
-		if id, ok := x.X.(*ast.Ident); ok && id.Name == "dimension" {
-			return kDimPtr
-		}
-		if id, ok := x.X.(*ast.Ident); ok && id.Name == "Config" {
-			return kCfg
-		}
-	case *ast.IndexExpr: // set.Set[string]
-		if sel, ok := x.X.(*ast.SelectorExpr); ok && sel.Sel.Name == "Set" && typeKind(x.Index) == kString {
-			return kKeys
-		}
-	case *ast.SelectorExpr: // genum.Enum
-		if x.Sel.Name == "Enum" {
-			return kEnum
-		}
 	}
-	return kUnknown
-}
-
-type sig struct {
-	role    string
-	params  []kind
-	results []kind
-	rec     bool
-}
-
-// names found in the source rather than assumed (so that renaming them does not break the tie)
-var (
-	roleGo         = map[string]string{} // role -> declaration key ("name" or "Recv.name")
-	defaultKeyName = "defaultKey"        // the string constant whose value is "default"
-	matcherVar     = "envVarTmplMatcher" // the variable initialised by regexp.MustCompile
-)
-
-var sigs = map[string]*sig{}
-
-type alias struct {
-	of  string
-	inj string
-}
-
-type fn struct {
-	stateful bool // the function threads the memo (`cache`) and may panic: results are option (cache * ...)
-	usesEnv  bool
-	name     string
-	env      map[string]kind
-	aliases  map[string]alias
-	results  []kind
-	problems []string
-	retWrap  func(string) string
-}
-
-func (f *fn) bad(what string) string {
-	f.problems = append(f.problems, what)
-	return "UNSUPPORTED_" + strings.Map(func(r rune) rune {
-		if r >= 'a' && r <= 'z' || r >= 'A' && r <= 'Z' || r >= '0' && r <= '9' {
-			return r
-		}
-		return '_'
-	}, what)
-}
-
-func isPlainASCII(s string) bool {
-	for i := 0; i < len(s); i++ {
-		if s[i] < 32 || s[i] > 126 {
-			return false
-		}
-	}
-	return true
-}
-
-func ident(e ast.Expr) string {
-	switch x := e.(type) {
-	case *ast.Ident:
-		return x.Name
-	case *ast.ParenExpr:
-		return ident(x.X)
-	}
-	return ""
-}
-
-// selector chain a.b.c -> ["a","b","c"]
-func chain(e ast.Expr) []string {
-	switch x := e.(type) {
-	case *ast.Ident:
-		return []string{x.Name}
-	case *ast.SelectorExpr:
-		if c := chain(x.X); c != nil {
-			return append(c, x.Sel.Name)
-		}
-	}
-	return nil
-}
-
-func isErrFactory(name string) bool { return strings.HasPrefix(name, "Err") }
-
-// callInfo classifies a call: the Gallina term and the kinds of its results.
-func (f *fn) call(c *ast.CallExpr) (string, []kind) {
-	args := func() []string {
-		out := make([]string, len(c.Args))
-		for i, a := range c.Args {
-			out[i], _ = f.expr(a, kUnknown)
-		}
-		return out
-	}
-	if id, ok := c.Fun.(*ast.Ident); ok {
-		switch id.Name {
-		case "len":
-			if len(c.Args) == 1 {
-				a, k := f.expr(c.Args[0], kUnknown)
-				switch k {
-				case kMap, kSlice, kStrSlice, kKeys, kDims:
-					return "(List.length " + a + ")", []kind{kInt}
-				}
-			}
-			return f.bad("len"), []kind{kInt}
-		case "make":
-			if len(c.Args) >= 1 && typeKind(c.Args[0]) == kKeys {
-				return "keys_empty", []kind{kKeys}
-			}
-			return f.bad("make"), []kind{kUnknown}
-		}
-		if s, ok := sigs[id.Name]; ok {
-			a := args()
-			if id.Name == f.name && s.rec {
-				return "(rec " + strings.Join(a, " ") + ")", s.results
-			}
-			return "(gen_" + s.role + " " + strings.Join(a, " ") + ")", s.results
-		}
-		return f.bad("call of " + id.Name), []kind{kUnknown}
-	}
-	if ix, ok := c.Fun.(*ast.IndexExpr); ok { // explicit instantiation f[T](...)
-		if typeParam != "" && ident(ix.Index) == typeParam {
-			target := strings.Join(chain(ix.X), ".")
-			if target == roleGo["extractAndConvert"] {
-				target = "extractAndConvert"
-			}
-			switch target {
-			case "extractAndConvert": // extractAndConvert[T](cfg.data, key), boxed into `any` by the assignment
-				if a0 := chain(c.Args[0]); len(c.Args) == 2 && len(a0) == 2 && f.env[a0[0]] == kCfg && a0[1] == "data" {
-					a, _ := f.expr(c.Args[1], kString)
-					return "(extract_and_convert is_iface dyn_of_any conv tyT " + a + ")", []kind{kDval, kErr}
-				}
-			case "reflect.TypeFor":
-				if len(c.Args) == 0 {
-					return "tyT", []kind{kUnknown}
+	stmtsList := fd.Body.List
+	if h := recoverHandler(fd); h != nil {
+		// defer func() { if r := recover(); r != nil { <assign the named results> } }(): a panic
+		// anywhere below evaluates to what the handler leaves in the named results
+		stmtsList = stmtsList[1:]
+		var named []string
+		if fd.Type.Results != nil {
+			for _, r := range fd.Type.Results.List {
+				for _, n := range r.Names {
+					named = append(named, "v_"+n.Name)
 				}
 			}
 		}
-		return f.bad("instantiated call"), []kind{kUnknown}
-	}
-	ch := chain(c.Fun)
-	if ch == nil {
-		return f.bad("call"), []kind{kUnknown}
-	}
-	if isErrFactory(ch[0]) || ch[0] == "gerror" { // ErrFailedParsing.Msg(...): some non-nil error
-		return "true", []kind{kErr}
-	}
-	joined := strings.Join(ch, ".")
-	if len(ch) == 2 && ch[0] == matcherVar {
-		joined = "envVarTmplMatcher." + ch[1]
-	}
-	switch joined {
-	case "envVarTmplMatcher.FindStringSubmatch":
-		if len(c.Args) == 1 {
-			a, _ := f.expr(c.Args[0], kString)
-			return "(find_submatch " + a + ")", []kind{kStrSlice}
+		if len(named) != len(fi.results) || len(named) == 0 {
+			f.bad("deferred recover without named results")
 		}
-	case "os.LookupEnv":
-		if len(c.Args) == 1 {
-			a, _ := f.expr(c.Args[0], kString)
-			f.usesEnv = true
-			return "(os_lookup_env env " + a + ")", []kind{kString, kBool}
+		for _, n := range named {
+			if !assignsIdent(h.Body, strings.TrimPrefix(n, "v_")) {
+				f.bad("recover handler that does not assign every named result")
+			}
 		}
-	case "strings.Trim":
-		if len(c.Args) == 2 {
-			a, _ := f.expr(c.Args[0], kString)
-			b, _ := f.expr(c.Args[1], kString)
-			return "(strings_trim " + a + " " + b + ")", []kind{kString}
+		if init, ok := h.Init.(*ast.AssignStmt); ok {
+			f.env[ident(init.Lhs[0])] = kErr
+		}
+		f.recoverTerm = "(" + f.stmts(h.Body.List, f.pack(named), "    ") + ")"
+	}
+	fall := "MISSING_RETURN"
+	if len(fi.results) == 0 {
+		fall = f.pack(nil)
+		if len(f.mutatedArgs) == 0 && !fi.stateful {
+			fall = "tt"
 		}
 	}
-	recv, rk := ch[0], f.env[ch[0]]
-	if rk == kTemplate && len(ch) == 2 {
-		if sg, ok := sigs[roleGo[ch[1]]]; ok && ch[1] == "MatchAndResolve" {
-			f.usesEnv = true
-			return "(gen_" + sg.role + " env " + strings.Join(args(), " ") + ")", sg.results
-		}
+	body := pre + f.stmts(stmtsList, fall, "  ")
+	if fi.stateful {
+		head += " : gout (gcache ty) (" + resTypes(rk) + ")"
+	} else if fi.canPanic {
+		head += " : option (" + resTypes(rk) + ")"
+	} else {
+		head += " : " + resTypes(rk)
 	}
-	switch {
-	case rk == kDimPtr && len(ch) == 2 && ch[1] == "get" && len(c.Args) == 0:
-		return "(dim_get v_" + recv + ")", []kind{kEnum}
-	case rk == kDimPtr && len(ch) == 3 && ch[1] == "defaultVal" && ch[2] == "ParseGeneric" && len(c.Args) == 1:
-		a, _ := f.expr(c.Args[0], kString)
-		return "(parse_generic v_" + recv + " " + a + ")", []kind{kEnum, kErr}
-	case rk == kDimPtr && len(ch) == 2:
-		if s, ok := sigs["dimension."+ch[1]]; ok {
-			return "(gen_" + s.role + " v_" + recv + " " + strings.Join(args(), " ") + ")", s.results
-		}
+	if strings.Contains(body, "MISSING_RETURN") {
+		body = strings.ReplaceAll(body, "MISSING_RETURN", f.bad("missing return"))
 	}
-	return f.bad("method call " + strings.Join(ch, ".")), []kind{kUnknown}
+	return head + " :=\n  " + body + ".\n\n", f.problems
 }
 
-// expr renders an expression; want is the kind expected by the context (for nil).
-func (f *fn) expr(e ast.Expr, want kind) (string, kind) {
-	switch x := e.(type) {
-	case *ast.ParenExpr:
-		return f.expr(x.X, want)
-	case *ast.Ident:
-		switch x.Name {
-		case "true", "false":
-			return x.Name, kBool
-		case "nil":
-			return want.zero(), want
-		}
-		if x.Name == defaultKeyName {
-			return "default_key", kString
-		}
-		if templatesVar != "" && x.Name == templatesVar && f.env[x.Name] == kUnknown {
-			return "(repeat tt " + strconv.Itoa(templatesLen) + ")", kTemplates
-		}
-		k := f.env[x.Name]
-		if k == kUnknown {
-			return f.bad("identifier " + x.Name), kUnknown
-		}
-		v := "v_" + x.Name
-		// a map or slice handed on as `any`
-		if want == kAny && k == kMap {
-			return "(Mp " + v + ")", kAny
-		}
-		if want == kAny && k == kSlice {
-			return "(Lst " + v + ")", kAny
-		}
-		if want == kAny && k == kString {
-			return "(Str " + v + ")", kAny
-		}
-		return v, k
-	case *ast.BasicLit:
-		if x.Kind == token.INT {
-			return x.Value, kInt
-		}
-		if x.Kind == token.STRING {
-			if v, err := strconv.Unquote(x.Value); err == nil && isPlainASCII(v) {
-				return "\"" + strings.ReplaceAll(v, "\"", "\"\"") + "\"%string", kString
-			}
-		}
-		return f.bad("literal"), kUnknown
-	case *ast.CompositeLit:
-		if id := ident(x.Type); id == "cacheKey" && len(x.Elts) == 2 {
-			var key, typ string
-			for _, e := range x.Elts {
-				kv, ok := e.(*ast.KeyValueExpr)
-				if !ok {
-					return f.bad("composite literal element"), kUnknown
-				}
-				switch ident(kv.Key) {
-				case "key":
-					key, _ = f.expr(kv.Value, kString)
-				case "typ":
-					typ, _ = f.expr(kv.Value, kUnknown)
-				}
-			}
-			if key != "" && typ != "" {
-				return "(" + key + ", " + typ + ")", kCacheKey
-			}
-		}
-		return f.bad("composite literal"), kUnknown
-	case *ast.IndexExpr:
-		a, k := f.expr(x.X, kUnknown)
-		i, ik := f.expr(x.Index, kInt)
-		if k == kStrSlice && ik == kInt {
-			return "(str_nth " + a + " " + i + ")", kString
-		}
-		return f.bad("index expression"), kUnknown
-	case *ast.UnaryExpr:
-		if x.Op == token.NOT {
-			a, _ := f.expr(x.X, kBool)
-			return "(negb " + a + ")", kBool
-		}
-		return f.bad("unary " + x.Op.String()), kUnknown
-	case *ast.BinaryExpr:
-		// comparisons with nil
-		if id := ident(x.Y); id == "nil" && (x.Op == token.EQL || x.Op == token.NEQ) {
-			a, k := f.expr(x.X, kUnknown)
-			if k == kErr {
-				if x.Op == token.NEQ {
-					return a, kBool
-				}
-				return "(negb " + a + ")", kBool
-			}
-			if k == kDval {
-				if x.Op == token.EQL {
-					return "(dval_is_nil " + a + ")", kBool
-				}
-				return "(negb (dval_is_nil " + a + "))", kBool
-			}
-			return f.bad("nil comparison"), kBool
-		}
-		l, lk := f.expr(x.X, kUnknown)
-		r, rk := f.expr(x.Y, lk)
-		switch x.Op {
-		case token.LAND:
-			return "(andb " + l + " " + r + ")", kBool
-		case token.LOR:
-			return "(orb " + l + " " + r + ")", kBool
-		case token.SUB:
-			if lk == kInt && rk == kInt {
-				return "(" + l + " - " + r + ")", kInt
-			}
-		case token.LSS:
-			if lk == kInt && rk == kInt {
-				return "(Nat.ltb " + l + " " + r + ")", kBool
-			}
-		case token.EQL, token.NEQ:
-			var t string
-			switch {
-			case lk == kString && rk == kString:
-				t = "(String.eqb " + l + " " + r + ")"
-			case (lk == kInt || lk == kEnum) && lk == rk:
-				t = "(Nat.eqb " + l + " " + r + ")"
-			default:
-				return f.bad("comparison of these kinds"), kBool
-			}
-			if x.Op == token.NEQ {
-				t = "(negb " + t + ")"
-			}
-			return t, kBool
-		}
-		return f.bad("binary " + x.Op.String()), kUnknown
-	case *ast.CallExpr:
-		if id := ident(x.Fun); id == "any" && len(x.Args) == 1 { // conversion to an interface value
-			return f.expr(x.Args[0], kAny)
-		}
-		t, ks := f.call(x)
-		if len(ks) == 1 {
-			return t, ks[0]
-		}
-		return t, kUnknown
-	case *ast.TypeAssertExpr:
-		// any(e).(T) with T the type parameter, instantiated with `any` wherever this is reached
-		if typeParam != "" && ident(x.Type) == typeParam && typeParamKind == kAny {
-			if c, ok := x.X.(*ast.CallExpr); ok && ident(c.Fun) == "any" && len(c.Args) == 1 {
-				return f.expr(c.Args[0], kAny)
-			}
-		}
-		return f.bad("type assertion"), kUnknown
-	}
-	return f.bad(fmt.Sprintf("expr %T", e)), kUnknown
-}
-
-// assigned lists the variables (already in scope) a statement list assigns, sorted; index
-// assignments count for the indexed variable and for what it aliases.
-func (f *fn) assigned(list []ast.Stmt) []string {
-	set := map[string]bool{}
-	declared := map[string]bool{}
-	mark := func(name string) {
-		if name == "" || name == "_" || declared[name] {
-			return
-		}
-		set[name] = true
-		if a, ok := f.aliases[name]; ok {
-			set[a.of] = true
-		}
-	}
-	for _, s := range list {
-		ast.Inspect(s, func(n ast.Node) bool {
-			switch s := n.(type) {
-			case *ast.AssignStmt:
-				for _, l := range s.Lhs {
-					if ix, ok := l.(*ast.IndexExpr); ok {
-						mark(ident(ix.X))
-						continue
-					}
-					name := ident(l)
-					if s.Tok == token.DEFINE {
-						declared[name] = true
-					} else {
-						mark(name)
-					}
-				}
-			case *ast.DeclStmt:
-				if gd, ok := s.Decl.(*ast.GenDecl); ok {
-					for _, sp := range gd.Specs {
-						if vs, ok := sp.(*ast.ValueSpec); ok {
-							for _, n := range vs.Names {
-								declared[n.Name] = true
-							}
-						}
-					}
-				}
-			case *ast.RangeStmt:
-				if s.Tok == token.DEFINE {
-					declared[ident(s.Key)] = true
-					if s.Value != nil {
-						declared[ident(s.Value)] = true
-					}
-				}
-			case *ast.ExprStmt:
-				if c, ok := s.X.(*ast.CallExpr); ok {
-					if ch := chain(c.Fun); len(ch) == 2 && ch[1] == "Add" {
-						mark(ch[0])
-					}
-				}
-			}
-			return true
-		})
-	}
-	out := make([]string, 0, len(set))
-	for k := range set {
-		out = append(out, k)
-	}
-	// loop-carried variables are ordered by kind, then by declaration (canonical names are
-	// x<N>), so that reordering independent declarations does not reorder the state tuple
-	sort.Slice(out, func(i, j int) bool {
-		if ki, kj := f.env[out[i]], f.env[out[j]]; ki != kj {
-			return ki < kj
-		}
-		a, ea := strconv.Atoi(strings.TrimPrefix(out[i], "x"))
-		b, eb := strconv.Atoi(strings.TrimPrefix(out[j], "x"))
-		if ea == nil && eb == nil {
-			return a < b
-		}
-		return out[i] < out[j]
-	})
-	return out
-}
-
-func tuple(vars []string) string {
-	switch len(vars) {
-	case 0:
-		return "tt"
-	case 1:
-		return "v_" + vars[0]
-	}
-	parts := make([]string, len(vars))
-	for i, v := range vars {
-		parts[i] = "v_" + v
-	}
-	return "(" + strings.Join(parts, ", ") + ")"
-}
-
-func pat(vars []string) string {
-	switch len(vars) {
-	case 0:
-		return "_"
-	case 1:
-		return "v_" + vars[0]
-	}
-	return "'" + tuple(vars)
-}
-
-func returns(list []ast.Stmt) bool {
+func assignsIdent(b *ast.BlockStmt, name string) bool {
 	found := false
-	for _, s := range list {
-		ast.Inspect(s, func(n ast.Node) bool {
-			if _, ok := n.(*ast.ReturnStmt); ok {
-				found = true
+	ast.Inspect(b, func(n ast.Node) bool {
+		if as, ok := n.(*ast.AssignStmt); ok && as.Tok == token.ASSIGN {
+			for _, l := range as.Lhs {
+				if ident(l) == name {
+					found = true
+				}
 			}
-			return true
-		})
-	}
+		}
+		return true
+	})
 	return found
 }
-
-func (f *fn) ret(v string) string {
-	if f.retWrap != nil {
-		return f.retWrap(v)
-	}
-	return v
-}
-
-func lhsName(e ast.Expr) string {
-	n := ident(e)
-	if n == "_" {
-		return "_"
-	}
-	return "v_" + n
-}
-
-// stmts renders a statement list in continuation style: k = the term for falling off the end,
-// loopK = the term for `continue` ("" outside loops).
-func (f *fn) stmts(list []ast.Stmt, k, loopK, ind string) string {
-	if len(list) == 0 {
-		return k
-	}
-	rest := func() string { return f.stmts(list[1:], k, loopK, ind) }
-	let := func(p, v string) string { return "let " + p + " := " + v + " in\n" + ind + rest() }
-	switch s := list[0].(type) {
-	case *ast.DeclStmt:
-		gd, ok := s.Decl.(*ast.GenDecl)
-		if !ok || gd.Tok != token.VAR || len(gd.Specs) != 1 {
-			return f.bad("declaration")
-		}
-		vs := gd.Specs[0].(*ast.ValueSpec)
-		if len(vs.Names) != 1 || len(vs.Values) != 0 {
-			return f.bad("var form")
-		}
-		kd := typeKind(vs.Type)
-		f.env[vs.Names[0].Name] = kd
-		return let("v_"+vs.Names[0].Name, kd.zero())
-	case *ast.AssignStmt:
-		if s.Tok != token.DEFINE && s.Tok != token.ASSIGN {
-			return f.bad("assignment operator")
-		}
-		if len(s.Lhs) > 2 && len(s.Rhs) == 1 { // a, b, c := f(...)
-			c, ok := s.Rhs[0].(*ast.CallExpr)
-			if !ok {
-				return f.bad("multi-value assignment")
-			}
-			term, ks := f.call(c)
-			if len(ks) != len(s.Lhs) {
-				return f.bad("multi-value assignment arity")
-			}
-			names := make([]string, len(s.Lhs))
-			for i, l := range s.Lhs {
-				if n := ident(l); n != "_" && n != "" {
-					f.env[n] = ks[i]
-				}
-				names[i] = lhsName(l)
-			}
-			return let("'("+strings.Join(names, ", ")+")", term)
-		}
-		if len(s.Lhs) == 2 && len(s.Rhs) == 1 {
-			if ix, isIx := s.Lhs[0].(*ast.IndexExpr); isIx { // m[k], err = f(...)
-				c, ok := s.Rhs[0].(*ast.CallExpr)
-				if !ok {
-					return f.bad("index target in a two-value assignment")
-				}
-				term, ks := f.call(c)
-				if len(ks) != 2 {
-					return f.bad("two-value assignment arity")
-				}
-				if n := ident(s.Lhs[1]); n != "_" && n != "" {
-					f.env[n] = ks[1]
-				}
-				name := ident(ix.X)
-				var upd string
-				switch f.env[name] {
-				case kMap:
-					i, _ := f.expr(ix.Index, kString)
-					upd = "map_set v_" + name + " " + i + " t_new"
-				case kSlice:
-					i, _ := f.expr(ix.Index, kInt)
-					upd = "slice_set v_" + name + " " + i + " t_new"
-				default:
-					return f.bad("index assignment")
-				}
-				out := "let '(t_new, " + lhsName(s.Lhs[1]) + ") := " + term + " in\n" + ind +
-					"let v_" + name + " := " + upd + " in\n" + ind
-				if a, ok := f.aliases[name]; ok {
-					out += "let v_" + a.of + " := " + a.inj + " v_" + name + " in\n" + ind
-				}
-				return out + rest()
-			}
-			var term string
-			var ks []kind
-			switch r := s.Rhs[0].(type) {
-			case *ast.CallExpr:
-				if ch := chain(r.Fun); len(ch) == 3 && f.env[ch[0]] == kCfg && ch[1] == "cached" && ch[2] == "Compute" && f.stateful && len(r.Args) == 2 {
-					// v, ok := cfg.cached.Compute(k, func(old any, loaded bool) (new any, del bool) {...})
-					key, _ := f.expr(r.Args[0], kCacheKey)
-					lit, isLit := r.Args[1].(*ast.FuncLit)
-					if !isLit {
-						return f.bad("Compute without a function literal")
-					}
-					fun, captured := f.funcLit(lit, ind+"    ")
-					for i, l := range s.Lhs {
-						if n := ident(l); n != "_" && n != "" {
-							f.env[n] = []kind{kDval, kBool}[i]
-						}
-					}
-					return let("'(cache, "+lhsName(s.Lhs[0])+", "+lhsName(s.Lhs[1])+", "+tuple(captured)+")",
-						"xsync_compute ty_eqb cache "+key+" "+fun)
-				}
-				term, ks = f.call(r)
-			case *ast.IndexExpr: // v, ok := m[k]
-				m, mk := f.expr(r.X, kUnknown)
-				if mk != kMap {
-					return f.bad("comma-ok index of a non-map")
-				}
-				ix, _ := f.expr(r.Index, kString)
-				term, ks = "(map_get "+m+" "+ix+")", []kind{kAny, kBool}
-			case *ast.TypeAssertExpr: // m, ok = x.(map[string]any)
-				x, xk := f.expr(r.X, kUnknown)
-				if xk != kAny || typeKind(r.Type) != kMap {
-					return f.bad("type assertion form")
-				}
-				term, ks = "(as_map "+x+")", []kind{kMap, kBool}
-			default:
-				return f.bad("two-value assignment")
-			}
-			if len(ks) != 2 {
-				return f.bad("two-value assignment from a one-value call")
-			}
-			for i, l := range s.Lhs {
-				if n := ident(l); n != "_" && n != "" {
-					f.env[n] = ks[i]
-				}
-			}
-			return let("'("+lhsName(s.Lhs[0])+", "+lhsName(s.Lhs[1])+")", term)
-		}
-		if len(s.Lhs) != 1 || len(s.Rhs) != 1 {
-			return f.bad("multi-assignment")
-		}
-		if ix, ok := s.Lhs[0].(*ast.IndexExpr); ok { // m[k] = e, s[i] = e
-			name := ident(ix.X)
-			v, _ := f.expr(s.Rhs[0], kAny)
-			var upd string
-			switch f.env[name] {
-			case kMap:
-				i, _ := f.expr(ix.Index, kString)
-				upd = "map_set v_" + name + " " + i + " " + v
-			case kSlice:
-				i, _ := f.expr(ix.Index, kInt)
-				upd = "slice_set v_" + name + " " + i + " " + v
-			default:
-				return f.bad("index assignment")
-			}
-			out := "let v_" + name + " := " + upd + " in\n" + ind
-			if a, ok := f.aliases[name]; ok { // the type-switch variable aliases the switched value
-				out += "let v_" + a.of + " := " + a.inj + " v_" + name + " in\n" + ind
-			}
-			return out + rest()
-		}
-		name := ident(s.Lhs[0])
-		if name == "" {
-			return f.bad("assignment target")
-		}
-		want := f.env[name]
-		v, vk := f.expr(s.Rhs[0], want)
-		if s.Tok == token.DEFINE || want == kUnknown {
-			f.env[name] = vk
-		}
-		return let("v_"+name, v)
-	case *ast.ExprStmt:
-		if c, ok := s.X.(*ast.CallExpr); ok {
-			if ch := chain(c.Fun); len(ch) == 2 && ch[1] == "Add" && f.env[ch[0]] == kKeys && len(c.Args) == 1 {
-				a, _ := f.expr(c.Args[0], kString)
-				return let("v_"+ch[0], "keys_add v_"+ch[0]+" "+a)
-			}
-		}
-		return f.bad("expression statement")
-	case *ast.BranchStmt:
-		if s.Tok == token.CONTINUE && s.Label == nil && loopK != "" {
-			return loopK
-		}
-		return f.bad("branch statement")
-	case *ast.ReturnStmt:
-		if len(s.Results) == 2 && f.stateful {
-			if ta, ok := s.Results[0].(*ast.TypeAssertExpr); ok && typeParam != "" && ident(ta.Type) == typeParam {
-				// return v.(T), e : the assertion may panic
-				v, vk := f.expr(ta.X, kUnknown)
-				e, _ := f.expr(s.Results[1], kErr)
-				if vk != kDval {
-					return f.bad("type assertion on a non-interface value")
-				}
-				return "match type_assert ty_eqb is_iface tyT " + v + " with\n" + ind + "| Some x => " + f.ret("(x, "+e+")") +
-					"\n" + ind + "| None => None\n" + ind + "end"
-			}
-		}
-		if len(s.Results) == 1 && len(f.results) > 1 {
-			if c, ok := s.Results[0].(*ast.CallExpr); ok { // return f(...)
-				t, ks := f.call(c)
-				if len(ks) == len(f.results) {
-					return f.ret(t)
-				}
-			}
-			return f.bad("return arity")
-		}
-		if len(s.Results) != len(f.results) {
-			return f.bad("return arity")
-		}
-		parts := make([]string, len(s.Results))
-		for i, r := range s.Results {
-			parts[i], _ = f.expr(r, f.results[i])
-		}
-		if len(parts) == 1 {
-			return f.ret(parts[0])
-		}
-		return f.ret("(" + strings.Join(parts, ", ") + ")")
-	case *ast.IfStmt:
-		pre := ""
-		if s.Init != nil {
-			pre = f.stmts([]ast.Stmt{s.Init}, "INIT_END", loopK, ind)
-			if !strings.HasSuffix(pre, "INIT_END") {
-				return f.bad("if init")
-			}
-			pre = strings.TrimSuffix(pre, "INIT_END")
-		}
-		cond, _ := f.expr(s.Cond, kBool)
-		after := rest()
-		then := f.stmts(s.Body.List, after, loopK, ind+"  ")
-		els := after
-		if s.Else != nil {
-			switch e := s.Else.(type) {
-			case *ast.BlockStmt:
-				els = f.stmts(e.List, after, loopK, ind+"  ")
-			case *ast.IfStmt:
-				els = f.stmts([]ast.Stmt{e}, after, loopK, ind+"  ")
-			default:
-				return f.bad("else form")
-			}
-		}
-		return pre + "if " + cond + "\n" + ind + "then " + then + "\n" + ind + "else " + els
-	case *ast.RangeStmt:
-		if s.Tok != token.DEFINE {
-			return f.bad("range without :=")
-		}
-		src, sk := f.expr(s.X, kUnknown)
-		var item string
-		var items string
-		key, val := ident(s.Key), ""
-		if s.Value != nil {
-			val = ident(s.Value)
-		}
-		bind := func(n string, kd kind) string {
-			if n == "" || n == "_" {
-				return "_"
-			}
-			f.env[n] = kd
-			return "v_" + n
-		}
-		switch sk {
-		case kMap:
-			items = src
-			item = "'(" + bind(key, kString) + ", " + bind(val, kAny) + ")"
-		case kSlice:
-			items = "(indexed " + src + ")"
-			item = "'(" + bind(key, kInt) + ", " + bind(val, kAny) + ")"
-		case kStrSlice:
-			items = "(indexed " + src + ")"
-			item = "'(" + bind(key, kInt) + ", " + bind(val, kString) + ")"
-		case kDims:
-			items = "(indexed " + src + ")"
-			item = "'(" + bind(key, kInt) + ", " + bind(val, kDimPtr) + ")"
-		case kTemplates:
-			items = src
-			item = bind(val, kTemplate)
-			if key != "_" && key != "" {
-				return f.bad("index variable over the templates")
-			}
-		case kKeys:
-			if val != "" {
-				return f.bad("range over a set with a value variable")
-			}
-			items = src
-			item = bind(key, kString)
-		default:
-			return f.bad("range over this kind")
-		}
-		vars := f.assigned(s.Body.List)
-		if !returns(s.Body.List) {
-			body := f.stmts(s.Body.List, tuple(vars), tuple(vars), ind+"    ")
-			return "let " + pat(vars) + " := fold_left (fun " + pat(vars) + " " + item + " =>\n" + ind + "    " + body +
-				") " + items + " " + tuple(vars) + " in\n" + ind + rest()
-		}
-		saved := f.retWrap
-		f.retWrap = func(v string) string { return "(" + tuple(vars) + ", Some " + v + ")" }
-		fall := "(" + tuple(vars) + ", None)"
-		body := f.stmts(s.Body.List, fall, fall, ind+"      ")
-		f.retWrap = saved
-		acc := strings.TrimPrefix(pat(vars), "'")
-		return "let '(" + acc + ", early) := fold_left (fun '(" + acc + ", early) " + item + " =>\n" +
-			ind + "    match early with Some _ => (" + tuple(vars) + ", early) | None =>\n" + ind + "      " + body + " end) " +
-			items + " (" + tuple(vars) + ", None) in\n" + ind + "match early with Some r => " + f.ret("r") + " | None =>\n" + ind + rest() + " end"
-	case *ast.TypeSwitchStmt:
-		as, ok := s.Assign.(*ast.AssignStmt)
-		if !ok || len(as.Lhs) != 1 || len(as.Rhs) != 1 {
-			return f.bad("type switch form")
-		}
-		ta, ok := as.Rhs[0].(*ast.TypeAssertExpr)
-		if !ok || ta.Type != nil {
-			return f.bad("type switch form")
-		}
-		swX := ta.X
-		if c, ok := swX.(*ast.CallExpr); ok && ident(c.Fun) == "any" && len(c.Args) == 1 {
-			swX = c.Args[0] // switch v := any(x).(type)
-		}
-		bound, of := ident(as.Lhs[0]), ident(swX)
-		if f.env[of] != kAny {
-			return f.bad("type switch on a non-any")
-		}
-		after := rest()
-		out := "match v_" + of + " with\n"
-		for _, c := range s.Body.List {
-			cc := c.(*ast.CaseClause)
-			if len(cc.List) != 1 {
-				return f.bad("type switch clause with several types")
-			}
-			kd := typeKind(cc.List[0])
-			inj := map[kind]string{kMap: "Mp", kSlice: "Lst", kString: "Str"}[kd]
-			if inj == "" {
-				return f.bad("type switch clause type")
-			}
-			f.env[bound] = kd
-			f.aliases[bound] = alias{of, inj}
-			out += ind + "| " + inj + " v_" + bound + " =>\n" + ind + "    " + f.stmts(cc.Body, after, loopK, ind+"    ") + "\n"
-			delete(f.aliases, bound)
-			delete(f.env, bound)
-		}
-		return out + ind + "| _ => " + after + "\n" + ind + "end"
-	}
-	return f.bad(fmt.Sprintf("stmt %T", list[0]))
-}
-
-// funcLit renders a function literal; variables of the enclosing function it assigns are
-// returned next to its results: fun params => ((results), captured).
-func (f *fn) funcLit(lit *ast.FuncLit, ind string) (string, []string) {
-	g := &fn{name: "", env: map[string]kind{}, aliases: map[string]alias{}}
-	for k, v := range f.env {
-		g.env[k] = v
-	}
-	local := map[string]bool{}
-	params := ""
-	for _, p := range lit.Type.Params.List {
-		kd := typeKind(p.Type)
-		for _, n := range p.Names {
-			g.env[n.Name] = kd
-			local[n.Name] = true
-			params += " (v_" + n.Name + " : " + kd.coq() + ")"
-		}
-	}
-	pre := ""
-	if lit.Type.Results != nil {
-		for _, r := range lit.Type.Results.List {
-			kd := typeKind(r.Type)
-			n := len(r.Names)
-			if n == 0 {
-				n = 1
-			}
-			for i := 0; i < n; i++ {
-				g.results = append(g.results, kd)
-			}
-			for _, nm := range r.Names {
-				g.env[nm.Name] = kd
-				local[nm.Name] = true
-				pre += "let v_" + nm.Name + " := " + kd.zero() + " in\n" + ind
-			}
-		}
-	}
-	var captured []string
-	for _, v := range g.assigned(lit.Body.List) {
-		if !local[v] {
-			captured = append(captured, v)
-		}
-	}
-	if len(captured) == 0 {
-		return f.bad("function literal without captured assignment"), nil
-	}
-	g.retWrap = func(v string) string { return "(" + v + ", " + tuple(captured) + ")" }
-	body := g.stmts(lit.Body.List, "MISSING_RETURN", "", ind)
-	if strings.Contains(body, "MISSING_RETURN") {
-		body = strings.ReplaceAll(body, "MISSING_RETURN", g.bad("missing return in function literal"))
-	}
-	f.problems = append(f.problems, g.problems...)
-	return "(fun" + params + " =>\n" + ind + pre + body + ")", captured
-}
-
-type target struct {
-	role string
-	rec  bool
-}
-
-var sets = map[string][]target{
-	"resolve": {
-		{"keySet", false},
-		{"parsesAll", false},
-		{"switchDimension", false},
-		{"reduceAny", true},
-		{"extract", false},
-	},
-	"templates": {
-		{"MatchAndResolve", false},
-		{"parseTemplatedElements", true},
-	},
-	"cache": {
-		{"getFromCache", false},
-	},
-}
-
-var wanted []target
 
 func main() {
 	src := flag.String("src", "", "directory of the gconfig module")
 	out := flag.String("out", "GConfGen.v", "output file")
-	set := flag.String("set", "resolve", "which functions: resolve (builder.go, config.go) | templates (yaml_templates.go) | cache (config.go)")
+	set := flag.String("set", "resolve", "which functions: resolve | templates | cache")
 	flag.Parse()
-	wanted = sets[*set]
-	if *set == "cache" {
-		anyKind = kDval
-	}
-	if *set == "templates" {
-		typeParamKind = kAny
-	}
+	wanted := sets[*set]
 	if wanted == nil {
 		fmt.Fprintln(os.Stderr, "unknown -set")
 		os.Exit(2)
 	}
 	fset := token.NewFileSet()
-	decls := map[string]*ast.FuncDecl{}
 	var files []*ast.File
 	for _, name := range []string{"builder.go", "config.go", "yaml_templates.go"} {
 		file, err := parser.ParseFile(fset, filepath.Join(*src, name), nil, 0)
@@ -1075,145 +199,70 @@ func main() {
 			os.Exit(2)
 		}
 		files = append(files, file)
-		for _, d := range file.Decls {
-			if fd, ok := d.(*ast.FuncDecl); ok && fd.Body != nil {
-				decls[declKey(fd)] = fd
-			}
+	}
+	pkg := collectPkg(files)
+	pkg.resolveRoles()
+	for _, fd := range pkg.decls {
+		renameLocals(fd)
+	}
+	a := &analysis{pkg: pkg, set: *set, infos: map[string]*finfo{}}
+	var problems []string
+	var roots []string
+	for _, role := range wanted {
+		if k, ok := pkg.roleGo[role]; ok && pkg.decls[k] != nil {
+			roots = append(roots, k)
+		} else {
+			problems = append(problems, role+": not found")
 		}
 	}
-	resolveRoles(decls)
-	resolveNames(files)
-	// signatures first (calls between the translated functions)
-	for _, t := range wanted {
-		fd, ok := decls[roleGo[t.role]]
-		if !ok {
-			continue
-		}
-		s := &sig{rec: t.rec, role: t.role}
-		typeParam = ""
-		if fd.Type.TypeParams != nil && len(fd.Type.TypeParams.List) == 1 && len(fd.Type.TypeParams.List[0].Names) == 1 {
-			typeParam = fd.Type.TypeParams.List[0].Names[0].Name
-		}
-		for _, p := range fd.Type.Params.List {
-			for range p.Names {
-				s.params = append(s.params, typeKind(p.Type))
-			}
-		}
-		if fd.Type.Results != nil {
-			for _, r := range fd.Type.Results.List {
-				n := len(r.Names)
-				if n == 0 {
-					n = 1
-				}
-				for i := 0; i < n; i++ {
-					s.results = append(s.results, typeKind(r.Type))
-				}
-			}
-		}
-		sigs[roleGo[t.role]] = s
-	}
+	a.reach(roots)
+	a.solve()
+
 	var b strings.Builder
 	b.WriteString("(* GENERATED by harness/cmd/xlate_gconf (-set " + *set + ") from the gconfig sources of the current tree — do not edit *)\n")
-	b.WriteString("From Coq Require Import List String Bool Arith.\nImport ListNotations.\nFrom GT Require Import GConfModel GConfGenPrims.\n")
-	if *set == "templates" {
+	b.WriteString("From Coq Require Import List String Bool Arith.\nImport ListNotations.\nFrom GT Require Import GConfModel GConfLoop GConfGenPrims.\n")
+	switch *set {
+	case "templates":
 		b.WriteString("From GT Require Import TmplModel TmplGenPrims.\n")
+	case "cache":
+		b.WriteString("From GT Require Import GConfCacheModel GConfCacheGenPrims.\n")
 	}
+	b.WriteString("\nSection Gen.\n(* yaml text and its decoding are oracles *)\nVariable ybytes : Type.\n")
 	if *set == "cache" {
-		anyKind = kDval
-		b.WriteString("From GT Require Import GConfCacheModel GConfCacheGenPrims.\n\nSection CacheGen.\n" +
-			"Variable ty : Type.\nVariable ty_eqb : ty -> ty -> bool.\nVariable is_iface : ty -> bool.\n" +
-			"Variable dyn_of_any : val -> ty.\nVariable conv : string -> ty -> res val.\n" +
+		b.WriteString("Variable ty : Type.\nVariable ty_eqb : ty -> ty -> bool.\nVariable is_iface : ty -> bool.\n" +
+			"Variable dyn_of_any : val -> ty.\n" +
+			"Variable yaml_marshal : tree -> ybytes * bool.\n" +
+			"(* decoding into an arbitrary Go type goes through reflection: None = it panics *)\n" +
+			"Variable yaml_unmarshal : ty -> ybytes -> val -> option (val * bool).\n" +
+			"Variable cfg_data : gomap.  (* cfg.data *)\n" +
 			"Variable tyT : ty.  (* the type argument T *)\nVariable zeroT : val.  (* its zero value *)\n")
+	} else {
+		b.WriteString("Variable yaml_unmarshal_map : ybytes -> gomap -> gomap * bool.\n")
 	}
 	b.WriteString("\n")
-	var problems []string
-	for _, t := range wanted {
-		fd, ok := decls[roleGo[t.role]]
-		if !ok {
-			b.WriteString("Definition gen_" + t.role + " := UNSUPPORTED_function_" + t.role + "_not_found.\n\n")
-			problems = append(problems, t.role+": not found")
-			continue
+	var helpers, names []string
+	for _, k := range a.order {
+		fi := a.infos[k]
+		text, probs := a.translate(k)
+		b.WriteString(text)
+		for _, p := range probs {
+			problems = append(problems, k+": "+p)
 		}
-		renameLocals(fd)
-		goName := roleGo[t.role]
-		typeParam = ""
-		if fd.Type.TypeParams != nil && len(fd.Type.TypeParams.List) == 1 && len(fd.Type.TypeParams.List[0].Names) == 1 {
-			typeParam = fd.Type.TypeParams.List[0].Names[0].Name
+		if fi.role == "" {
+			helpers = append(helpers, fi.gen)
 		}
-		f := &fn{name: goName, env: map[string]kind{}, aliases: map[string]alias{}, results: sigs[goName].results}
-		f.stateful = *set == "cache"
-		head := "Definition gen_" + t.role
-		resT := make([]string, len(f.results))
-		for i, r := range f.results {
-			resT[i] = r.coq()
-		}
-		if t.rec {
-			var pt []string
-			for _, p := range sigs[goName].params {
-				pt = append(pt, p.coq())
-			}
-			head += " (rec : " + strings.Join(pt, " -> ") + " -> " + strings.Join(resT, " * ") + ")"
-		}
-		if fd.Recv != nil && len(fd.Recv.List) == 1 && len(fd.Recv.List[0].Names) == 1 {
-			n := fd.Recv.List[0].Names[0].Name
-			kd := typeKind(fd.Recv.List[0].Type)
-			f.env[n] = kd
-			head += " (v_" + n + " : " + kd.coq() + ")"
-		}
-		for _, p := range fd.Type.Params.List {
-			kd := typeKind(p.Type)
-			for _, n := range p.Names {
-				f.env[n.Name] = kd
-				if kd == kCfg { // the Config is represented by its memo
-					head += " (cache : gcache ty)"
-					continue
-				}
-				head += " (v_" + n.Name + " : " + kd.coq() + ")"
-			}
-		}
-		if f.stateful {
-			f.retWrap = func(v string) string { return "Some (cache, " + v + ")" }
-		}
-		// named results are variables initialised to their zero values
-		pre := ""
-		if fd.Type.Results != nil {
-			i := 0
-			for _, r := range fd.Type.Results.List {
-				for _, n := range r.Names {
-					f.env[n.Name] = f.results[i]
-					pre += "let v_" + n.Name + " := " + f.results[i].zero() + " in\n  "
-					i++
-				}
-				if len(r.Names) == 0 {
-					i++
-				}
-			}
-		}
-		body := pre + f.stmts(fd.Body.List, "MISSING_RETURN", "", "  ")
-		if f.usesEnv {
-			head = strings.Replace(head, "Definition gen_"+t.role, "Definition gen_"+t.role+" (env : list (string * string))", 1)
-		}
-		if f.stateful {
-			head += " : option (gcache ty * (" + strings.Join(resT, " * ") + "))"
-		} else {
-			head += " : " + strings.Join(resT, " * ")
-		}
-		if strings.Contains(body, "MISSING_RETURN") {
-			body = strings.ReplaceAll(body, "MISSING_RETURN", f.bad("missing return"))
-		}
-		b.WriteString(head + " :=\n  " + body + ".\n\n")
-		for _, p := range f.problems {
-			problems = append(problems, t.role+": "+p)
+		names = append(names, fi.gen+" ("+k+")")
+	}
+	for _, role := range wanted {
+		if k, ok := pkg.roleGo[role]; !ok || a.infos[k] == nil {
+			b.WriteString("Definition gen_" + role + " := UNSUPPORTED_function_" + role + "_not_found.\n\n")
 		}
 	}
-	if *set == "cache" {
-		b.WriteString("End CacheGen.\n")
+	b.WriteString("End Gen.\n\nCreate HintDb gen_helpers.\n")
+	if len(helpers) > 0 {
+		b.WriteString("#[global] Hint Unfold " + strings.Join(helpers, " ") + " : gen_helpers.\n")
 	}
-	names := make([]string, len(wanted))
-	for i, t := range wanted {
-		names[i] = t.role + " (" + roleGo[t.role] + ")"
-	}
-	b.WriteString("(* translated: " + strings.Join(names, ", ") + " (a recursive function as a functional of its recursive call) *)\n")
+	b.WriteString("(* translated: " + strings.Join(names, ", ") + " *)\n")
 	if err := os.WriteFile(*out, []byte(b.String()), 0o644); err != nil {
 		fmt.Fprintln(os.Stderr, err)
 		os.Exit(2)
